@@ -14,6 +14,17 @@ Diag == "TRACE_DIAG" \in DOMAIN IOEnv
 KFOn(n) == ("KF_" \o n) \in DOMAIN IOEnv
 KFSchema == "C20_SCHEMA_NULLABLE"
 
+\* PROP = C08: the same traces judged by C08's statement only (an operation on an object / list member known to be dropped
+\* is skipped successfully; live members are applied; nothing about identity fields or stamps)
+Prop == IF "PROP" \in DOMAIN IOEnv THEN IOEnv.PROP ELSE "C20"
+C08Contract(m, r) ==
+    IF m.shape # "one" \/ m.kind \notin (ListKinds \cup ObjKinds) THEN TRUE
+    ELSE IF SkipAllowed(m) THEN r.calls = <<>> /\ ~r.err
+    ELSE /\ Len(r.calls) >= 1
+         /\ \A i \in 1..Len(r.calls) :
+               /\ r.calls[i].kind = CallKind(m.kind)
+               /\ (m.kind \in ListKinds => NoDup(r.calls[i].list) /\ SeqSet(r.calls[i].list) = LiveIdx(m.members))
+
 VARIABLES tr, l
 tvars == <<vars, tr, l>>
 
@@ -33,8 +44,10 @@ TStep ==
            r == [calls |-> e.calls, err |-> e.err] IN
        /\ MsgOK(m)
        /\ cur' = m /\ res' = r
-       /\ \/ Contract(m, r, FALSE)
-          \/ /\ ~Contract(m, r, FALSE)
+       /\ \/ Prop = "C08" /\ C08Contract(m, r)
+          \/ Prop # "C08" /\ Contract(m, r, FALSE)
+          \/ /\ Prop # "C08"
+             /\ ~Contract(m, r, FALSE)
              /\ KFOn(KFSchema) /\ Contract(m, r, TRUE)
              /\ PrintT("KF " \o Traces[tr].plan \o " " \o KFSchema)
     /\ l' = l + 1 /\ tr' = tr /\ hist' = hist
